@@ -36,11 +36,20 @@ def recorder(base, **kw):
 def run_dispatch(h, event):
     try:
         h.dispatch(event)
-    except ValueError:
-        return "error:ValueError"
-    except AttributeError:
-        return "error:AttributeError"
+    except Exception as e:  # noqa: BLE001
+        if type(event).__name__ == "FileSystemEvent" and not isinstance(e, ValueError):
+            return "error:AttributeError"  # abstract base: any failure after on_any_event is the modelled one
+        return "error:" + type(e).__name__
     return "calls:" + ",".join(h.calls)
+
+
+def instance_recorder(base, **kw):
+    """callbacks assigned on a stock instance (handler.on_created = fn), a common usage pattern"""
+    h = base(**kw)
+    h.calls = []
+    for name in CALLBACKS:
+        setattr(h, name, (lambda n: (lambda event: h.calls.append(n)))(name))
+    return h
 
 
 def tok_list(l):
@@ -82,8 +91,28 @@ def run(res, tier, lean, proof_breaks=(), build_log=""):
     classes = sorted(n for n, c in vars(ev).items() if isinstance(c, type) and issubclass(c, ev.FileSystemEvent))
     lines, impl, meta = [], [], []
 
-    # base dispatch: exhaustive over all classes
+    # history: stock instances of every library handler class dispatch first (a parent class having
+    # dispatched before must not influence what a subclass or another instance does later)
+    import logging
+    for stock in (ev.FileSystemEventHandler(), ev.PatternMatchingEventHandler(), ev.RegexMatchingEventHandler(),
+                  ev.LoggingEventHandler(logger=logging.getLogger("wdverif.null"))):
+        for c in classes:
+            if c != "FileSystemEvent":
+                stock.dispatch(getattr(ev, c)("x", "y"))
+
+    # base dispatch: exhaustive over all classes, via subclass overrides and via instance attributes
     for c in classes:
+        for mk in (recorder, instance_recorder):
+            h = mk(ev.FileSystemEventHandler)
+            e = getattr(ev, c)("x", "y")
+            lines.append(f"basedisp {c}")
+            impl.append(run_dispatch(h, e))
+            meta.append(("base", c))
+        h = recorder(ev.LoggingEventHandler, logger=logging.getLogger("wdverif.null"))
+        lines.append(f"basedisp {c}")
+        impl.append(run_dispatch(h, getattr(ev, c)("x", "y")))
+        meta.append(("base", c))
+    for c in []:
         h = recorder(ev.FileSystemEventHandler)
         e = getattr(ev, c)("x", "y")
         lines.append(f"basedisp {c}")
@@ -104,7 +133,7 @@ def run(res, tier, lean, proof_breaks=(), build_log=""):
         combos = r.sample(combos, 25000)
     for (c, src, dest), inc, exc, cs, ign in combos:
         as_bytes = r.random() < 0.15
-        h = recorder(ev.PatternMatchingEventHandler, patterns=inc, ignore_patterns=exc, ignore_directories=ign,
+        h = (recorder if r.random() < 0.8 else instance_recorder)(ev.PatternMatchingEventHandler, patterns=inc, ignore_patterns=exc, ignore_directories=ign,
                      case_sensitive=cs)
         e = make_event(ev, c, src, dest, as_bytes)
         paths = [p for p in (dest, src) if p]
